@@ -18,7 +18,7 @@ VARIANT_TY = {"UTF8String": "TUtf8", "OctetString": "TOctets", "Integer32": "TI3
               "AddressIPv4": "TIPv4", "AddressIPv6": "TIPv6", "Float32": "TF32", "Float64": "TF64", "Unknown": "TUnknown"}
 WHICH = {"C15": ["type_names"], "C14": ["type_names"], "C03": ["cmds", "apps", "avp_flags"], "C04": ["cmds", "apps", "nesting"],
          "C01": ["avp_flags", "header_length"], "C02": ["avp_flags", "header_length"], "C07": ["max_frame", "header_length"],
-         "C06": ["max_frame", "header_length"], "C17": ["rfc868_offset"]}
+         "C06": ["max_frame", "header_length"], "C17": ["rfc868_offset"], "C10": ["panic_unwinds"]}
 
 
 def _read(repo, rel):
@@ -95,6 +95,14 @@ def extract(repo):
     t = _strip_comments(_read(repo, "src/avp/time.rs"))
     m = re.search(r"const\s+RFC868_OFFSET\s*:\s*\w+\s*=\s*([^;]+);", t)
     f["rfc868_offset"] = _const_expr(m.group(1)) if m else None
+    # Cargo.toml: profiles that turn panics into aborts (the model's listener isolates a panicking handler because a panic UNWINDS
+    # inside the connection's task: Model/Listener.v, assumption "tokio::spawn panic isolation")
+    cargo = re.sub(r"#[^\n]*", "", _read(repo, "Cargo.toml"))
+    aborting = []
+    for m in re.finditer(r"^\[profile\.([\w\-\.]+)\]([^\[]*)", cargo, flags=re.M):
+        if re.search(r"^\s*panic\s*=\s*[\"']abort[\"']", m.group(2), flags=re.M):
+            aborting.append(m.group(1))
+    f["panic_unwinds"] = aborting if cargo else None
     tr = _strip_comments(_read(repo, "src/transport/mod.rs"))
     f["max_frame"] = None
     m = re.search(r"if\s+\(?\s*length(?:\s+as\s+\w+)?\s*\)?\s*>\s*([^\{]+)\{", tr)
@@ -160,6 +168,11 @@ def coq_text(pid, facts):
             out.append(f"Definition src_max_nesting : N := {v}%N.")
             out.append("(* the properties leave the limit open but ask for at least 16 levels; the correspondence runs use the measured limit *)\n"
                        "Theorem source_nesting_limit_admits_16 : (16 <=? src_max_nesting)%N = true.\nProof. reflexivity. Qed.")
+        elif item == "panic_unwinds":
+            out.append("Definition src_profiles_with_panic_abort : list (list byte) := [" + "; ".join(_bytes(x) for x in v) + "].")
+            out.append("(* no build profile of the crate turns a panic into an abort of the process: the isolation of a panicking handler\n"
+                       "   (C10_noninterference's assumption) holds in every profile the crate declares *)\n"
+                       "Theorem source_panics_unwind_in_every_profile : src_profiles_with_panic_abort = [].\nProof. reflexivity. Qed.")
         elif item == "rfc868_offset":
             out.append(f"Definition src_rfc868_offset : Z := {v}%Z.")
             out.append("Theorem source_epoch_offset_is_the_models : src_rfc868_offset = rfc868_offset.\nProof. reflexivity. Qed.")
